@@ -108,7 +108,9 @@ def main(argv: List[str]) -> None:
         from verif.props import c12
 
         cx = c12.Ctx(col)
-        LEAVES = [("v", "x"), ("v", "y"), ("v", "z"), ("c", 0), ("c", 1), ("c", 2), ("c", -1), ("c", 3),
+        third = "X" if seed % 2 else "z"
+        cx.third = third
+        LEAVES = [("v", "x"), ("v", "y"), ("v", third), ("c", 0), ("c", 1), ("c", 2), ("c", -1), ("c", 3),
                   ("c", 2 ** 53), ("c", 2 ** 53 + 1), ("c", 10 ** 30 + 7)]
         BIN = ["+", "*", "+", "*", "-", "//", "%", "<", "<=", ">", ">=", "==", "!="]
 
@@ -128,6 +130,9 @@ def main(argv: List[str]) -> None:
                 return ("f", "abs", tree(it, depth + 1))
             if k == 8:
                 return ("f", ("min", "max")[next(it, 0) % 2], tree(it, depth + 1), tree(it, depth + 1))
+            if next(it, 0) % 2:
+                ops = ["<", "<=", ">", ">=", "==", "!="]
+                return ("cmp", ops[next(it, 0) % 6], ops[next(it, 0) % 6], tree(it, depth + 1), tree(it, depth + 1), tree(it, depth + 1))
             return ("if", tree(it, depth + 1), tree(it, depth + 1), tree(it, depth + 1))
 
         def leafcount(e) -> int:
